@@ -13,7 +13,7 @@ CHECKS = {
     'C13': dict(
         text='Lean theorems: the model of IsValidDataType accepts a string iff it belongs to the X12 language (integers, decimals, the three '
              'character sets, D8/D6/DT dates with the Gregorian calendar and century window, RD8 ranges, TM times), for all strings of any '
-             'length. Tied to /repo by an exhaustive/structured differential (about 0.9M cases in quick) between the real function and the '
+             'length; render forms: a string is an accepted D8/D6/TM iff it is the rendering of a calendar date / clock time (C13Render). Tied to /repo by an exhaustive/structured differential (about 0.9M cases in quick) between the real function and the '
              'compiled model, plus an independent Python oracle of the languages.',
         note=COMMON_NOTE + ' charset in {B,E}, version in {00401,00501}.',
         technique='Lean 4 proof (model accepts iff X12 language, unbounded) + exhaustive bounded differential model vs code',
@@ -22,7 +22,7 @@ CHECKS = {
         text='Translator regenerates a Lean term per map file from the current XML on every run; per-map theorems (decide +kernel) state that '
              'the violations of the well-formedness / addressing rules (usages, repeats, element references, seqs, syntax notes, same-position '
              'siblings distinguishable, path components unique, every loop and segment fetched by its own path) are exactly the listed known '
-             'findings; index keys unambiguous. The quantifier (every map file, node, index entry) is finite and enumerated completely. The '
+             'findings; index keys unambiguous; element/composite slots obligation M_slots per map; per-rule soundness theorems (C16Rules: an empty violation list implies the quantified rule). The quantifier (every map file, node, index entry) is finite and enumerated completely. The '
              'translation is compared node by node with pyx12\'s loaded tree and the same rules are evaluated on the real tree with the real '
              'getnodebypath / getnodebypath2; both ways of locating the map directory are compared.',
         note=COMMON_NOTE + ' tools/xlate.py (own XML parse) is cross-checked against the loader on every run.',
@@ -53,7 +53,7 @@ CHECKS['C15'] = dict(
     design='DESIGN.md §3 C15')
 CHECKS['C17'] = dict(
     text='Lean theorems: parse (print p) = p for every well-formed structured path with any number of loop ids (parse_print, '
-         'print_parse_print); the written-out last-component matcher accepts exactly the designator language (matchLast_none_iff); '
+         'print_parse_print); the written-out last-component matcher accepts exactly the designator language (matchLast_none_iff, fields level matchLast_fields); '
          'refusal rules (qualifier_needs_segment, index_after_loops_needs_segment); segment laws get_set, set_pads, set_frame, '
          'foreign_segment_refused for all segments, designators and values in the stated domain. Tied to /repo by grammar enumeration '
          '(real X12Path fields/format/equality/errors vs model vs the generating parts), every map node path, and random set/get '
@@ -184,10 +184,11 @@ CHECKS['C06'] = dict(
 CHECKS['C10'] = dict(
     text='Lean model of the X12DataNode trees (rose tree, index-path addresses, map data carried on nodes) with theorems queries_agree, '
          'get_set, set_frame, delete_removes_exactly_one, deleted_invisible, insert_after_le_before_gt, insert_keeps_sorted, copy_independent, '
-         'serialise_reflects_edits (per call and forest level). Tied to /repo by random histories of all 12 API calls with valid and invalid '
+         'serialise_reflects_edits (per call and forest level), history_refinement (any call history refines the abstract forest), '
+         'copy_preserves_format, and copy_shares_nothing on a heap-level model (Model/DataTreeH) in which sharing is expressible. Tied to /repo by random histories of all 12 API calls with valid and invalid '
          'paths on real trees from generated documents: after every call result/exception class and a checksum of every tree are compared with '
          'the model, and every law is evaluated on the real code.',
-    note=COMMON_NOTE + ' copy_independent is a frame property in a model that cannot express sharing; aliasing is decided by the identity-based oracle on the real objects.',
+    note=COMMON_NOTE + ' The heap-level model of copy is hand-written; aliasing on the real objects is additionally decided by the identity-based oracle.',
     technique='Lean 4 proof (editing laws on the tree model) + API-history differential + law oracle on real trees',
     design='DESIGN.md §3 C10')
 CHECKS['C20'] = dict(
